@@ -87,6 +87,8 @@ class CommandField(fields.Field):
         command_type = protocol.Command
 
         valid_commands = {member.value for member in tuple(command_type)}
+        if "child_id" not in data:
+            raise ValidationError("Missing data for required field.")
         child_id = validate_child_id(
             value=data["child_id"],
             data=data,
@@ -175,6 +177,8 @@ def validate_child_id(
     )
     child_range(child_id)
 
+    if "command" not in data or "message_type" not in data:
+        raise ValidationError("Missing data for required field.")
     command = validate_command(data["command"])
     message_type = validate_message_type(data["message_type"])
 
